@@ -130,3 +130,5 @@ package sizes
 
 //@ property C04: (*TreeSize).addDescendent (*TreeSize).addBlob (*TreeSize).addLink (*TreeSize).addSubmodule (*HistorySize).recordTree
 //@ property C01: (*HistorySize).recordBlob (*HistorySize).recordTree (*HistorySize).recordCommit (*HistorySize).recordTag (*HistorySize).recordReference
+//@ property C05: (*TreeSize).addDescendent (*TreeSize).addBlob (*TreeSize).addLink (*TreeSize).addSubmodule (*HistorySize).recordBlob (*HistorySize).recordTree (*HistorySize).recordCommit (*HistorySize).recordTag (*HistorySize).recordReference
+//@ property C02: (*HistorySize).recordBlob (*HistorySize).recordTree (*HistorySize).recordCommit
